@@ -28,11 +28,18 @@ type verifOp struct {
 	A    c12raw.C12Args `json:"a"`
 }
 
+type verifShard struct {
+	Cluster bool   `json:"cluster"`
+	Pass    string `json:"pass"`
+	TLS     bool   `json:"tls"`
+}
+
 type verifCase struct {
-	Kind    string    `json:"kind"`
-	Seed    int       `json:"seed"`
-	Weights []int     `json:"weights"`
-	Ops     []verifOp `json:"ops"`
+	Kind    string       `json:"kind"`
+	Seed    int          `json:"seed"`
+	Weights []int        `json:"weights"`
+	Shards  []verifShard `json:"shards"` // optional, per shard
+	Ops     []verifOp    `json:"ops"`
 }
 
 func verifPairs(a c12raw.C12Args, i int) []redis.Pair {
@@ -512,8 +519,14 @@ var verifEpoch = time.Unix(1700000000, 0)
 func verifKV(c verifCase) any {
 	var shards []*miniredis.Miniredis
 	var conf Config
-	for _, w := range c.Weights {
-		s, err := miniredis.Run()
+	for i, w := range c.Weights {
+		// per-shard configuration (kv.Config = []cache.NodeConfig{redis.Config{Host, Type, Pass, Tls}, Weight});
+		// the shard's server enforces exactly that password / TLS
+		var sc verifShard
+		if i < len(c.Shards) {
+			sc = c.Shards[i]
+		}
+		s, err := c12raw.C12RunServer(sc.TLS, sc.Pass)
 		if err != nil {
 			return map[string]any{"error": err.Error()}
 		}
@@ -521,7 +534,11 @@ func verifKV(c verifCase) any {
 		s.Seed(c.Seed)
 		s.SetTime(verifEpoch)
 		shards = append(shards, s)
-		conf = append(conf, cache.NodeConfig{Config: redis.Config{Host: s.Addr(), Type: redis.NodeType}, Weight: w})
+		typ := redis.NodeType
+		if sc.Cluster {
+			typ = redis.ClusterType
+		}
+		conf = append(conf, cache.NodeConfig{Config: redis.Config{Host: s.Addr(), Type: typ, Pass: sc.Pass, Tls: sc.TLS}, Weight: w})
 	}
 	sr, err := miniredis.Run()
 	if err != nil {
@@ -565,8 +582,8 @@ func verifKV(c verifCase) any {
 		case "#restart": // shard op.W (data kept; the store's pooled connections to it are dead afterwards)
 			snapshot()
 			s := shards[op.W%len(shards)]
-			s.Close()
-			if err := s.Restart(); err != nil {
+			stls := op.W%len(shards) < len(c.Shards) && c.Shards[op.W%len(shards)].TLS
+			if err := c12raw.C12Restart(s, stls); err != nil {
 				return map[string]any{"error": "restart: " + err.Error()}
 			}
 			steps = append(steps, map[string]any{"skip": "restart"})
